@@ -990,7 +990,16 @@ class Variable(CanBehaveLikeAVariable[T]):
                 or self is self._conditions_root_
             ):
                 self._is_false_ = not bool(sources[self._id_])
-            yield OperationResult(sources, not bool(sources[self._id_]), self)
+            # the truth value of a bound variable only matters where the variable itself is a condition;
+            # as an operand (of a comparison, an attribute access, a call) a falsy value is a value like any other
+            is_condition = (
+                isinstance(self._parent_, LogicalOperator)
+                or self is self._conditions_root_
+                or self._is_condition_of_nested_query_
+            )
+            yield OperationResult(
+                sources, is_condition and not bool(sources[self._id_]), self
+            )
         elif self._domain_:
             for v in self._domain_:
                 yield OperationResult(
